@@ -446,6 +446,8 @@ def compare_vars(case, model, env, exp, got, assigned, why, fvalue_float=None):
     stats = {"compared": 0, "undef_spec": 0, "undef_impl": 0, "artefact": 0, "drift": 0}
     final, design = _obj(exp["final"]), _obj(exp["design"])
     for var, p in sorted(final.items()):
+        if "(" in var:
+            continue  # A(n) / DADT(n): PREDPP's amounts and $DES right-hand sides, not user variables
         if p[1] == 0:
             stats["undef_spec"] += 1
             continue
